@@ -50,6 +50,10 @@ CLAIMED = {
          "Exploration with an exhaustively enumerated sub-space: every set of <= 5 oriented faces over 5 labelled vertices and of <= 4 over 6 (123 789 meshes: disks, fans, bow-ties, flipped neighbours, Moebius strips, tetrahedra, fins) plus random larger meshes (grid disks with holes, tubes, closed surfaces, multi-component, welded vertices, flipped faces, permuted labels), voxel sets and index-pair lists. calc_edges must err exactly for edges shared by > 2 faces, otherwise list each undirected edge once with its length, map faces to edges and return boundary loops that are closed cycles containing every boundary edge exactly once; get_patches and clusters_from_sparse must be the exact connectivity partitions; chained_indices must use every pair once and be maximal; every call is repeated so that several hash-iteration orders occur and is bounded by hooked step counters; create_box / create_cylinder must be consistently wound with outward normals.",
          "Termination is judged as bounded progress (8(F+E+V+1)^2 steps on the hooked loops); patch decomposition is judged only for meshes without an edge shared by more than two faces, as the property states. Uses hooks H1/H4.",
          "3 / C12"),
+ "C13": ("runtime monitor: incidence and exactly-once segment accounting against harness-computed plane-face crossings, convex-hull perimeter, area conservation, rigid-motion equivariance; child-process guard for calls that may not terminate",
+         "Exploration: Mesh::section and Mesh::split on boxes, prisms, icospheres and tori in random pose with planes of any normal and offset (mesh vertices kept >= 1e-4*size from the plane): every returned vertex on plane and surface, consecutive vertices joined across one face, every crossing segment used exactly once, closed loops for watertight meshes, one loop with the hull perimeter for convex solids, empty result for a miss, split parts on their own sides with areas adding up, and commutation with rigid motion. Planes exactly through vertices/edges/faces and sections of open meshes are first executed in a sacrificial child process with memory and time limits.",
+         "Known findings (dependency parry3d 0.18 intersection_with_local_plane does not terminate): sections whose polyline has free ends (open meshes) and some planes exactly through vertices, edges or faces. The in-process main stream relies on the 1e-4*size clearance (no non-termination observed in 280 000 sections).",
+         "3 / C13"),
  "C16": ("runtime monitor: brute-force signed-distance oracle for deviations; Vec / three-vector sequential models over random call histories for the aggregates; defining rule for the breakpoint table",
          "Exploration: point_curve2_deviation / line_surface_deviations / Mesh::measure_point_deviation (both modes) with measured points on both sides, in the 1e-6 coincidence band, at corners and beyond open ends; Distance2/Distance3 value, reversal, centre; histories of up to 200 SurfaceDeviationSet new/push/push_new calls with ties, equal extremes and one-signed values checked after every call against a Vec model (max, min, symmetric zone, len, order); histories of PointCloud try_new/empty/append/merge/create_from_indices/transform with consistent and inconsistent normal/colour presence (accepted operations append exactly, rejected ones change nothing, lengths stay equal); breakpoint tables queried at, between, one ulp around and beyond both ends.",
          "Deviation sign judged only where the closest edges/faces agree on the side; below the library's absolute 1e-6 coincidence threshold only |value| <= distance is required.",
